@@ -30,6 +30,13 @@ PARALLEL = True
 RULE = ("one case = (optimizer, hyper-parameters, objective, history[, answer string of the internal draws]); complete enumeration of histories up to "
         "the depth bound; non-trivial = the history contains at least one optimisation step that moves a parameter")
 
+ASSUMPTIONS = ["QNSPSA metric-tensor estimate taken with the sign of Gacon et al. 2021 (g = -1/2 Hessian of the fidelity, as implemented); the class docstring "
+               "prints the formula without the minus sign, which would make the estimate negative semi-definite",
+               "QNSPSA blocking tolerance = 2 x standard deviation of the last history_length losses (paper / implementation); the argument documentation "
+               "says 'average of the cost values'",
+               "QNGOptimizer with recompute_tensor=False reuses the regularised tensor of the last recomputation (lam applied when the tensor was computed)",
+               "numpy.random.choice (SPSA) and QNSPSAOptimizer.rng are replaced by scripted answer sources on the harness side"]
+
 GD_OPTS = ["GradientDescentOptimizer", "MomentumOptimizer", "NesterovMomentumOptimizer", "AdagradOptimizer", "RMSPropOptimizer", "AdamOptimizer",
            "QNGOptimizer", "MomentumQNGOptimizer"]
 STEP_EVENTS = ("step", "sc", "sg", "cg", "nr", "cnr")
